@@ -13,9 +13,13 @@ CLAIMED = {
   "Coq theorems over a Gallina state machine transcribed from token.c/object_pool.c (pool pointer, use count, slab stack, bump pointer and one-past-the-end sentinel, malloc/free as a fresh-block oracle): every well-bracketed history runs without NULL dereference, every allocation is fresh and inside a live slab, no slab is freed while the count is positive, everything is released when the count returns to zero, and any clean state behaves like the initial one. Tied to the code through hook H1 and a harness that runs histories (all well-bracketed ones up to a length bound, random ones beyond, allocation batches around the 1024-object slab boundary, real conversions) under ASan and compares the observable pool state after every call with the extracted model.",
   "Trusted: Coq kernel, extraction, harness/pool.c + hook H1, malloc succeeds and returns fresh blocks; stack.c (slab stack growth) and the C short counter wrap are not modelled; that conversion output does not depend on token addresses is tested (output hash vs fresh process), not proved.",
   "Coq proof (invariant induction over histories + two-state simulation) over hand model, tied by extracted-model-vs-implementation correspondence"),
+ "C02": ("proof",
+  "(a) Coq theorem, by reflection over tables regenerated from parser.c on every run: the lemon block parser, run as mmd_parse_token_chain runs it, accepts EVERY non-empty sequence of the 36 line kinds the classifier can assign - no syntax error, parse failure, stack overflow or table overrun, exactly one shift per line, stack height <= 11 < 100 (1039 reachable stacks, closure checked by vm_compute, lifted to all sequences by induction). The hand-transcribed driver is tied to parser.c by comparing its Shift/Reduce/Accept trace with ParseTrace output (hook H3 brackets nested parses) on thousands of distinct line-kind sequences; the same runs check that every kind the real parser receives is in the extracted set. (b) partial: a syntactic, regenerated may-analysis proves that every token type non-writer code can create has a case in each writer whose default is an escape (or is on a justified allow-list); all writers x {MMD, compat} are run on line-kind sequences and marker soup in forked children (testing).",
+  "Trusted: Coq kernel + vm_compute; tools/tr_lemon.py, tools/tr_writers.py (incl. its allow-list); lib/Lemon.v transcription (validated by trace correspondence); grammar actions and writer bodies are not modelled - writer behaviour is tested, not proved.",
+  "Coq proof by reflection (finite-state closure + induction) over tables regenerated from parser.c; trace correspondence for the driver; syntactic coverage obligation + runs for writers"),
 }
 NOT_YET = "no check built yet in this commit (work proceeds in the order of DESIGN.md section 9); not claimed"
-HOOK_COMMITS = ["f9ed9e1"]
+HOOK_COMMITS = ["f9ed9e1", "865fa70"]
 
 def main():
     checks = []
